@@ -391,6 +391,9 @@ def pack(t: T, v):
             return [id_const(v)]
         if is_z3(v) and v.sort() == IdSort:
             return [v]
+        if isinstance(v, OpaqueV) and v.what in ("fstring", "str"):
+            # a string built at run time (f-string / format): SOME identifier - an arbitrary one (over-approximation: nothing is known about it)
+            return [z3.Const(fresh_name("built_id"), IdSort)]
         raise TypeError(f"not an Id: {v!r}")
     if isinstance(t, RefT):
         if v is None:
